@@ -120,6 +120,18 @@ func c15(p *Prog, r *Report) {
 			r.Check(ok, R4, fmt.Sprintf("%s: SHA-512 input #%d assembled in fresh storage", shortName(fn), n), p.InstrPos(c), "append chain rooted at a fresh buffer", why)
 		}
 		if n == 0 {
+			// streamed into a hash object (h.Write(blind); h.Write([]byte{0}); ...):
+			// no buffer is assembled, so no argument's storage can be written
+			for _, ds := range p.deepSites(p.NewSym(fn), func(n string) bool { return n == "(hash.Hash).Sum" }) {
+				if c, ok := ds.Site.(*ssa.Call); ok {
+					if t := ds.S.hashSum(c); strings.Contains(t.String(), "hash<sha512>(") {
+						n++
+						r.OK(R4, fmt.Sprintf("%s: SHA-512 input #%d is streamed into the hash", shortName(fn), n), p.InstrPos(c), "Write calls only read their arguments")
+					}
+				}
+			}
+		}
+		if n == 0 {
 			r.Fail(R4, shortName(fn)+": SHA-512 input assembled in fresh storage", p.Pos(fn.Pos()), "no SHA-512 call found")
 		}
 	}
